@@ -106,21 +106,48 @@ func c08Run(r *Run) {
 	}
 
 	r.curRule = "C08-EDGES"
-	entries := []struct {
+	// decision entry points: the two named roots (the declared-type test and the instanceof test) and,
+	// found from the code, every bool-answering function in their call closure that itself steps along
+	// the class chain (GetExtend) — each of those is reachable on its own (e.g. for a ThisValue) and must
+	// cover all edge kinds within its own closure
+	type entryT struct {
+		p  *packages.Package
+		fd *ast.FuncDecl
+	}
+	var entries []entryT
+	seenEntry := map[*ast.FuncDecl]bool{}
+	for _, root := range []struct {
 		p        *packages.Package
 		recv, fn string
-	}{
-		{dpkg, "Class", "Is"},
-		{dpkg, "", "isClassValueInstanceOf"},
-		{dpkg, "", "extendISClass"},
-		{npkg, "", "checkClassIs"},
-	}
-	for _, e := range entries {
-		fd := findFunc(e.p, e.recv, e.fn)
+	}{{dpkg, "Class", "Is"}, {npkg, "", "checkClassIs"}} {
+		fd := findFunc(root.p, root.recv, root.fn)
+		if fd == nil && root.recv == "" {
+			fd = findFuncAnyRecv(root.p, root.fn)
+		}
 		if fd == nil {
-			r.fail("anchor not found: %s.%s", e.recv, e.fn)
+			r.fail("anchor not found: %s.%s", root.recv, root.fn)
 			continue
 		}
+		for _, f := range closure(root.p, fd) {
+			if seenEntry[f] {
+				continue
+			}
+			isRoot := f == fd
+			answersBool := false
+			if f.Type.Results != nil && len(f.Type.Results.List) > 0 {
+				if bt, ok := root.p.TypesInfo.TypeOf(f.Type.Results.List[0].Type).Underlying().(*types.Basic); ok && bt.Kind() == types.Bool {
+					answersBool = true
+				}
+			}
+			if isRoot || (answersBool && calls(root.p, f, "GetExtend").any) {
+				seenEntry[f] = true
+				entries = append(entries, entryT{root.p, f})
+			}
+		}
+	}
+	r.stat("hierarchy_decision_entries", len(entries))
+	for _, e := range entries {
+		fd := e.fd
 		fk := funcKey(e.p, fd)
 		cl := closure(e.p, fd)
 		ext, implAnc, ifaceParents := false, false, false
@@ -266,10 +293,8 @@ func c08Run(r *Run) {
 	// are reported for review (informational)
 	known := map[*ast.FuncDecl]bool{}
 	for _, e := range entries {
-		if fd := findFunc(e.p, e.recv, e.fn); fd != nil {
-			for _, f := range closure(e.p, fd) {
-				known[f] = true
-			}
+		for _, f := range closure(e.p, e.fd) {
+			known[f] = true
 		}
 	}
 
@@ -358,9 +383,9 @@ func c08Run(r *Run) {
 	} else {
 		info := npkg.TypesInfo
 		// receivers of method lookups in fn: variable → true
-		lookupRecv := func(f *ast.FuncDecl) map[types.Object]bool {
+		lookupRecv := func(body ast.Node) map[types.Object]bool {
 			out := map[types.Object]bool{}
-			ast.Inspect(f.Body, func(n ast.Node) bool {
+			ast.Inspect(body, func(n ast.Node) bool {
 				if c, ok := n.(*ast.CallExpr); ok {
 					if se, ok := ast.Unparen(c.Fun).(*ast.SelectorExpr); ok && (se.Sel.Name == "GetMethod" || se.Sel.Name == "GetStaticMethod") {
 						if id, ok := ast.Unparen(se.X).(*ast.Ident); ok {
@@ -372,7 +397,7 @@ func c08Run(r *Run) {
 			})
 			return out
 		}
-		recvs := lookupRecv(fd)
+		recvs := lookupRecv(fd.Body)
 		declOfFn := map[types.Object]*ast.FuncDecl{}
 		for _, f := range funcDecls(npkg) {
 			declOfFn[info.Defs[f.Name]] = f
@@ -418,13 +443,22 @@ func c08Run(r *Run) {
 							all = false
 							break
 						}
-						h := declOfFn[calleeOf(info, c)]
-						if h == nil {
+						// a declared helper, or a function literal called on the spot
+						var hbody *ast.BlockStmt
+						if lit, ok := ast.Unparen(c.Fun).(*ast.FuncLit); ok {
+							hbody = lit.Body
+						} else if h := declOfFn[calleeOf(info, c)]; h != nil {
+							hbody = h.Body
+						}
+						if hbody == nil {
 							all = false
 							break
 						}
-						hr := lookupRecv(h)
-						ast.Inspect(h.Body, func(k ast.Node) bool {
+						hr := lookupRecv(hbody)
+						ast.Inspect(hbody, func(k ast.Node) bool {
+							if _, nested := k.(*ast.FuncLit); nested {
+								return false
+							}
 							if rs, ok := k.(*ast.ReturnStmt); ok && i < len(rs.Results) {
 								if exprStr(rs.Results[i]) == "nil" {
 									return true
